@@ -206,6 +206,14 @@ def guarded_evolve(ctx, m, mpo, dt, normalize, what, family):
                                 message=f"{type(e).__name__}: {str(e)[:120]}")
                     raise CaseAbort() from e
                 scale *= max(float(np.linalg.norm(H)), 1e-300)
+        lim = getattr(m.compress_config, "bond_dim_max_value", None)
+        if (family == "pc" and isinstance(e, AssertionError) and str(e) == ""
+                and where in ("renormalizer/mps/mp.py:_push_cano", "renormalizer/mps/mp.py:scale")
+                and lim is not None and max(m.bond_dims) > lim):
+            # the same zero-state mechanism, reached after the scheme's own (lossy) compression of the operand: the
+            # truncated state is annihilated by H although the original one is not
+            ctx.violate("evolve|pc|truncated-state-annihilated-by-H|crash", scheme=what, where=where, bonds=m.bond_dims, limit=int(lim))
+            raise CaseAbort() from e
         ctx.violate(f"{what}|crash|{type(e).__name__}@{where}", message=f"{type(e).__name__}: {str(e)[:120]}",
                     traceback=traceback.format_exc()[-1500:])
         raise CaseAbort() from e
